@@ -95,9 +95,11 @@ deriving Repr, DecidableEq
 /-- What the driver does next; chosen by the schedule (the driver's control flow outside the
     error cell is not modelled, every flow is allowed). `poll`: the executor polls the driver;
     `pce`: the next shared operation of a `poll_connection_error` call; `det e`: the driver
-    detects `e` itself (`handle_connection_error e`); `park`: the poll returns `Pending`. -/
+    detects `e` itself (`handle_connection_error e`); `park`: the poll returns `Pending`;
+    `bidi r`: the end of a poll of client `poll_close`, whose `poll_accept_bi` is `Ready` — with the
+    transport's error (`some q`) or with a server-initiated stream (`none`), see `clientTail`. -/
 inductive DOp where
-  | poll | pce | det (e : Err) | park
+  | poll | pce | det (e : Err) | park | bidi (r : Option QErr)
 deriving Repr, DecidableEq
 
 /-- A schedule entry: the driver (with its next call) or the next step of stream handle `i`. -/
@@ -142,6 +144,22 @@ def detect (s : State) (e : Err) : State :=
     let w := s.cell.getD e
     observe { s with cell := some w } w
 
+/-- what the client raises when it is handed a server-initiated bidirectional stream (RFC 9114 §6.1;
+    the reason string is fixed, tag 0). -/
+def clientBidiErr : Err := .internal H3.Gen.Consts.CODE_H3_STREAM_CREATION_ERROR 0
+
+/-- The tail of client `Connection::poll_close`:
+    `if self.inner.poll_accept_bi(cx).is_ready() { return Ready(handle_connection_error(H3_STREAM_CREATION_ERROR)) }`.
+    `poll_accept_bi` is `Ready` either with a stream or with the transport's error, which it has
+    already passed through `handle_connection_error` itself (`.map_err(|e| self.handle_connection_error(e))`);
+    `is_ready()` does not tell the two apart, so the client raises H3_STREAM_CREATION_ERROR in both
+    cases and returns what that second `handle_connection_error` answers. -/
+def clientTail (s : State) (r : Option QErr) : State :=
+  let s1 := match r with
+    | some q => detect s (.quic q)
+    | none => s
+  detect s1 clientBidiErr
+
 def dstep (registerFirst : Bool) (s : State) : DOp → State
   | .poll =>
     match s.pc with
@@ -161,6 +179,11 @@ def dstep (registerFirst : Bool) (s : State) : DOp → State
   | .park =>
     match s.pc with
     | .armed => { s with pc := .idle, parked := true }
+    | _ => s
+  | .bidi r =>
+    match s.pc with
+    | .started => clientTail s r
+    | .armed => clientTail s r
     | _ => s
 
 /-- `set_conn_error` (`get_or_init`): first half of `set_conn_error_and_wake`. -/
